@@ -411,22 +411,34 @@ func (cs *clientStream) doHttpCall(transport http.RoundTripper, req *http.Reques
 	var rErr error
 	rMuHeld := false
 
-	defer func() {
-		if !rMuHeld {
-			cs.rMu.Lock()
-		}
-		defer cs.rMu.Unlock()
+	var reply *http.Response
 
-		if rErr != nil && cs.rErr == nil {
-			if _, ok := status.FromError(rErr); !ok && cs.ctx.Err() != nil {
-				// reading the response was aborted because the context ended
-				rErr = statusFromContextError(cs.ctx.Err())
+	defer func() {
+		func() {
+			if !rMuHeld {
+				cs.rMu.Lock()
 			}
-			cs.rErr = rErr
+			defer cs.rMu.Unlock()
+
+			if rErr != nil && cs.rErr == nil {
+				if _, ok := status.FromError(rErr); !ok && cs.ctx.Err() != nil {
+					// reading the response was aborted because the context ended
+					rErr = statusFromContextError(cs.ctx.Err())
+				}
+				cs.rErr = rErr
+			}
+			cs.done = true
+			readPipe.CloseWithError(rErr)
+			close(cs.rCh)
+		}()
+		// Only now that the stream is marked done, the request body has ended
+		// and rMu is released, drain what is left of the reply: the server may
+		// not end its reply before it has seen the end of the request, and
+		// callers blocked in SendMsg need rMu to find out that the call is over.
+		if reply != nil {
+			ioutil.ReadAll(reply.Body)
+			reply.Body.Close()
 		}
-		cs.done = true
-		readPipe.CloseWithError(rErr)
-		close(cs.rCh)
 	}()
 
 	onReady := func(err error, headers metadata.MD) {
@@ -452,16 +464,14 @@ func (cs *clientStream) doHttpCall(transport http.RoundTripper, req *http.Reques
 		}
 	}()
 
-	reply, err := transport.RoundTrip(req.WithContext(cs.ctx))
+	var err error
+	reply, err = transport.RoundTrip(req.WithContext(cs.ctx))
 	verifAt("http.stream.after-roundtrip", cs.ctx)
 	if err != nil {
+		reply = nil
 		onReady(statusFromContextError(err), nil)
 		return
 	}
-	defer func() {
-		ioutil.ReadAll(reply.Body)
-		reply.Body.Close()
-	}()
 
 	if len(cs.copts.Peer) > 0 {
 		cs.copts.SetPeer(getPeer(cs.baseUrl, reply.TLS))
